@@ -284,7 +284,7 @@ static int mode_list() {
 }
 
 struct Args {
-  std::string harness, progress, hashes, out, replay;
+  std::string harness, progress, hashes, out, replay, dump;
   uint64_t seed = 1, start = 0, stride = 1, count = 0, index = 0;
   double time_budget = 0;
   int tier = 0;
@@ -303,6 +303,7 @@ static int mode_run(const Args &a) {
     prog = (volatile uint64_t *)mmap(nullptr, 16, PROT_READ | PROT_WRITE, MAP_SHARED, fd, 0);
     close(fd);
   }
+  FILE *dumpf = a.dump.empty() ? nullptr : fopen(a.dump.c_str(), "w");
   double t0 = Shrinker::now();
   uint64_t runs = 0, steps = 0, switches = 0, sim_ns = 0, inconclusive = 0, nontrivial = 0, spin_blocks = 0;
   uint64_t fired_tot[ST_MAX] = {0};
@@ -322,6 +323,7 @@ static int mode_run(const Args &a) {
     run_one(h, seed, nullptr, false, nullptr, &out);
     last_index = i;
     runs++;
+    if (dumpf) fprintf(dumpf, "%llu %016llx %d %llu\n", (unsigned long long)i, (unsigned long long)out.res.log_hash, (int)out.res.status, (unsigned long long)out.res.steps);
     steps += out.res.steps; switches += out.res.switches; sim_ns += out.res.sim_ns; spin_blocks += out.res.spin_blocks;
     uint64_t nf = 0;
     for (int s = 0; s < ST_MAX; s++) { fired_tot[s] += out.res.fired[s]; nf += out.res.fired[s]; }
@@ -352,6 +354,7 @@ static int mode_run(const Args &a) {
     }
   }
   alarm(0);
+  if (dumpf) fclose(dumpf);
   if (prog) prog[1] = 0;
   if (!a.hashes.empty()) {
     FILE *f = fopen(a.hashes.c_str(), "ab");
@@ -479,6 +482,7 @@ int main(int argc, char **argv) {
     else if (k == "--progress") a.progress = val();
     else if (k == "--hashes") a.hashes = val();
     else if (k == "--out") a.out = val();
+    else if (k == "--dump") a.dump = val();
     else if (k == "--file") a.replay = val();
     else if (k == "--samples") a.samples = atoi(val());
     else if (k == "--trace") a.trace = true;
@@ -489,6 +493,7 @@ int main(int argc, char **argv) {
   if (mode == "run") return mode_run(a);
   if (mode == "investigate") return mode_investigate(a);
   if (mode == "replay") return mode_replay(a);
+  if (mode == "conform") { extern int conform_main(); return conform_main(); }
   if (mode == "dtest") {   // debugging aid: run one index twice (generate, then replay its decisions) and print the first differing trace line
     const HarnessDef *h = find_harness(a.harness.c_str());
     if (!h) return 2;
